@@ -101,6 +101,38 @@ def _mk(target_cls, target):
         def on_raise(self, exc, old, **a):
             return {"context_config_restored": self._config_restored()}
 
+        def concretize(self, rec):
+            def thunk():
+                """inside the caller's own config_context, a passing and a failing validation: the caller's context is as before"""
+                import warnings
+
+                import polars as pl
+                import pandera as pa
+                import pandera.polars as pp
+                from pandera.config import ValidationDepth, config_context, get_config_context
+
+                warnings.simplefilter("ignore")
+                obs, bad = {}, False
+                schema = pp.DataFrameSchema({"a": pp.Column(int, pa.Check.gt(0))})
+                for mk in (pl.DataFrame, pl.LazyFrame):
+                    for data in ([1, 2], [1, -2]):
+                        for lazy in (False, True):
+                            with config_context(validation_depth=ValidationDepth.SCHEMA_AND_DATA, cache_dataframe=True):
+                                before = get_config_context()
+                                before = (before.validation_depth, before.cache_dataframe, before.validation_enabled, before.keep_cached_dataframe)
+                                try:
+                                    schema.validate(mk({"a": data}), lazy=lazy)
+                                except (pa.errors.SchemaError, pa.errors.SchemaErrors):
+                                    pass
+                                after = get_config_context()
+                                after = (after.validation_depth, after.cache_dataframe, after.validation_enabled, after.keep_cached_dataframe)
+                            if after != before:
+                                bad = True
+                                obs[f"{mk.__name__} {data} lazy={lazy}"] = {"context before": [str(x) for x in before], "after": [str(x) for x in after]}
+                return bad, obs or "the caller's context configuration is unchanged after passing and failing validations"
+
+            return thunk
+
     V.target = target
     V.__name__ = "PolarsApi_" + target_cls.__name__
     return V
